@@ -25,6 +25,16 @@ def lanes(qc, layout, pattern, rng, i=0):
     if pattern == "lane" and layout in ("a", "b"):      # one lane at its maximum, the three others exactly zero (the lane moves with i)
         top = U32 if layout == "a" else U64
         return [top if k == i % 4 else 0 for k in range(4)]
+    if pattern == "halves" and layout in ("a", "b"):
+        # every half-word (the unit the multipliers and the final reductions work on) at a boundary value: the partial sums of a
+        # short product then carry into each other in every possible way
+        w = 16 if layout == "a" else 32
+        top = (1 << w) - 1
+        H = [0, 1, 2, top, top - 1, 1 << (w - 1), (1 << (w - 1)) - 1, (1 << (w - 1)) + 1, top // 3, top - top // 3, rng.randrange(0, top + 1)]
+        if rng.random() < 0.5:      # the same element in the four lanes, or four independent ones
+            v = rng.choice(H) | (rng.choice(H) << w)
+            return [v] * 4
+        return [rng.choice(H) | (rng.choice(H) << w) for _ in range(4)]
     if layout == "a":
         if pattern == "max":
             return [U32] * 4
@@ -57,6 +67,38 @@ def elem_residues(qc, layout, e):
     if layout == "c":
         return [int(e[2 * k]) % qc.q[k] for k in range(4)]
     return qc.residues(e)
+
+
+def drive_halves(rec, part, reps):
+    """short products (1..9 terms, plus a few longer ones) of operands whose half-words sit at boundary values: the place where a
+    carry between partial sums of the accumulation or of the final reduction is taken, dropped or taken twice"""
+    rng = random.Random(rec.seed * 733 + part)
+    L = Lib.get()
+    qc = q120.Q(L)
+    events = []
+    kinds = [("baa", "a", "a"), ("bbb", "b", "b"), ("bbc", "b", "c"), ("x2c1", "b", "c"), ("x2c2", "b", "c")]
+    for rep in range(reps):
+        ell = rng.choice([1, 2, 2, 3, 3, 3, 4, 4, 5, 6, 7, 8, 9, 17, 33])
+        for (kind, lx, ly) in kinds:
+            xe = 2 if kind.startswith("x2") else 1
+            ye = {"x2c1": 2, "x2c2": 4}.get(kind, 1)
+            xs = [lanes(qc, lx, "halves", rng, i) for i in range(ell * xe)]
+            ys = [lanes(qc, ly, "halves" if ly != "c" else "noncanon", rng, i) for i in range(ell * ye)]
+            got = {}
+            for impl in ("ref", "avx2"):
+                label = "q120 product %s_%s ell=%d pattern=half-word boundaries" % (kind, impl, ell)
+                if not rec.progress(label):
+                    continue
+                res = q120.product(qc, kind, impl, xs, ys, off=rng.choice([0, 8]))
+                rec.case((kind, impl, "halves", min(ell, 10)))
+                if res is None:
+                    rec.violation(label + ": operand modified or write outside the result", {"kind": kind, "ell": ell})
+                    continue
+                got[impl] = [qc.residues(r) for r in res]
+                events.append({"e": "QProd", "kind": kind, "impl": impl, "ell": ell,
+                               "x": [elem_residues(qc, lx, e) for e in xs], "y": [elem_residues(qc, ly, e) for e in ys],
+                               "res": got[impl], "_what": label})
+    rec.data["events"] = events
 
 
 def drive_products(rec, part, ells, reps):
@@ -276,7 +318,8 @@ def run(chk, replay=None):
     ells = [0, 1, 2, 3, 7, 64, 1000] if quick else [0, 1, 2, 3, 7, 64, 1000, 4000, 10000]
     jobs = [("q120 products part %d" % i, drive_products, (i, ells[i::4], 3 if quick else 6)) for i in range(4)]
     jobs.append(("q120 conversions and block maps", drive_conversions, (40 if quick else 400,)))
-    res = isolated_many(chk, jobs, timeout=1800, nproc=5)
+    jobs += [("q120 products on half-word boundary operands part %d" % i, drive_halves, (i, 150 if quick else 1500)) for i in range(4)]
+    res = isolated_many(chk, jobs, timeout=1800, nproc=9)
     events = [ev for d in res if d for ev in d["events"]]
     clean = [{k: v for k, v in ev.items() if not k.startswith("_")} for ev in events]
     bad, results = validate_events("Q120Trace", "Q120Trace.cfg", clean, "c10", nproc=12, timeout=3000)
